@@ -79,6 +79,35 @@ pub struct TraitDef {
     pub methods: IndexMap<String, FnScheme>,
 }
 
+fn ty_mentions_self(ty: &tast::Ty) -> bool {
+    match ty {
+        tast::Ty::TStruct { name } => name == "Self",
+        tast::Ty::TTuple { typs } => typs.iter().any(ty_mentions_self),
+        tast::Ty::TApp { ty, args } => ty_mentions_self(ty) || args.iter().any(ty_mentions_self),
+        tast::Ty::TArray { elem, .. } | tast::Ty::TVec { elem } | tast::Ty::TRef { elem } => {
+            ty_mentions_self(elem)
+        }
+        tast::Ty::TFunc { params, ret_ty } => {
+            params.iter().any(ty_mentions_self) || ty_mentions_self(ret_ty)
+        }
+        _ => false,
+    }
+}
+
+impl FnScheme {
+    /// A trait method signature names `Self` as its receiver; only when `Self` occurs
+    /// nowhere else can the method be called through `dyn` (and only then are the types
+    /// of the signature spelled out in the output, in the trait's vtable).
+    pub fn is_dyn_dispatchable(&self) -> bool {
+        match &self.ty {
+            tast::Ty::TFunc { params, ret_ty } => {
+                !params.iter().skip(1).any(ty_mentions_self) && !ty_mentions_self(ret_ty)
+            }
+            other => !ty_mentions_self(other),
+        }
+    }
+}
+
 #[derive(Debug, Clone, Default, serde::Serialize, serde::Deserialize)]
 pub struct ImplDef {
     pub params: Vec<TastIdent>,
